@@ -260,7 +260,7 @@ def judge(ctx, runs, canaries=True):
                                   consts=f"CONSTANTS\nProf <- {pname}\nMaxDepth = 0\n")
         n = len(traces)
         if len([i for i in bad if i >= n]) != len(cans):
-            raise MachineryError(f"Trace_C16 accepted a canary ({pname})")
+            ctx.defer_machinery(f"Trace_C16 accepted a canary ({pname})")
         ctx.traces_validated -= 0
         ctx.extra["canaries_rejected"] = ctx.extra.get("canaries_rejected", 0) + len(cans)
         for i, clause in sorted(bad.items()):
